@@ -731,8 +731,56 @@ func ruRandCase(r *Rng, s string) string {
 	return string(b)
 }
 
+// ruSetDefaultFormat sets roman.DefaultFormat (an output setting: the parser and the validity check are specified without it).
+func ruSetDefaultFormat(f roman.Format) func() {
+	old := roman.DefaultFormat
+	roman.DefaultFormat = f
+	return func() { roman.DefaultFormat = old }
+}
+
+// ruCrossFormats: every parser / Valid / UnmarshalText expectation of C10 once more under each output format setting.
+func ruCrossFormats(c *Ctx) {
+	type tc struct {
+		s  string
+		v  uint64
+		ok bool
+	}
+	var cases []tc
+	for _, n := range []uint64{0, 1, 4, 9, 14, 40, 49, 90, 400, 444, 900, 999, 1994, 2024, 3888, 3999, 4000, 12345} {
+		for _, fl := range []int{0, 63, 64, 127, 9, 36 | 64} {
+			t := ruNumeral(n, fl)
+			cases = append(cases, tc{t, n, true}, tc{ruUpper(t), n, true}, tc{ruLower(t), n, true})
+			if len(t) > 1 {
+				cases = append(cases, tc{ruUpper(t[:1]) + ruLower(t[1:]), n, true}, tc{ruLower(t[:1]) + ruUpper(t[1:]), n, true})
+			}
+		}
+	}
+	for _, bad := range []string{"IIIII", "iiiii", "IC", "ic", "VX", "MCMXCIVX", "abc", "ABC", "I I", "i\n", " I", "IVI", "ivi", "XM", "Z", "z"} {
+		cases = append(cases, tc{bad, 0, false})
+	}
+	for _, f := range crossRomanFormats {
+		func() {
+			defer ruSetDefaultFormat(f)()
+			rep := &ruRep{}
+			for _, x := range cases {
+				n0 := len(rep.ex)
+				ruCheckRoman(rep, x.s, x.v, x.ok)
+				for i := n0; i < len(rep.ex); i++ {
+					rep.ex[i].Detail += fmt.Sprintf(" [roman.DefaultFormat = %d]", int(f))
+				}
+			}
+			rep.nt = int64(len(cases))
+			rep.merge(c)
+		}()
+	}
+}
+
 func propC10(c *Ctx) {
 	defer ruSetRomanMax(128)()
+	// the whole property runs under an output format other than the default (which one: by seed); the table of ruCrossFormats
+	// runs under every one of them
+	defer ruSetDefaultFormat(crossRomanFormats[1+int(c.Seed%uint64(len(crossRomanFormats)-1))])()
+	defer ruCrossFormats(c)
 	lang, err := ruBuildLang()
 	c.Check("language-table")
 	if err != nil {
